@@ -12,4 +12,4 @@ def classify(name, prog, res):
 
 
 def run(ctx):
-    return mp.generic_run(ctx, {"interfaceb": mp.on_case("interfaceb"), "must-reject": mp.on_prog_outcome("c10_must_reject")}, classify, after_failed=True)
+    return mp.generic_run(ctx, {"interfaceb": mp.on_case("interfaceb"), "must-reject": mp.on_prog_outcome("c10_must_reject")}, classify, after_failed=True, text_variants=True)
